@@ -37,6 +37,9 @@ def enc(x):
         if math.isinf(x):
             return ("f", "inf" if x > 0 else "-inf")
         return ("f", x.hex())
+    if isinstance(x, range):       # another Sequence[int]; step 1 only
+        assert x.step == 1
+        return ("range", (enc(x.start), enc(x.stop)))
     if isinstance(x, (list, tuple)):
         return ("tuple" if isinstance(x, tuple) else "list", tuple(enc(e) for e in x))
     if isinstance(x, str):
@@ -54,6 +57,8 @@ def dec(e):
         return [dec(x) for x in v]
     if t == "tuple":
         return tuple(dec(x) for x in v)
+    if t == "range":
+        return range(dec(v[0]), dec(v[1]))
     if t == "s":
         return v
     raise TypeError(repr(e))
@@ -82,6 +87,8 @@ def coq_num(e) -> str:
 
 
 def coq_iro(e) -> str:
+    if e[0] == "range":
+        return "(IroSeq [" + "; ".join(coq_num(enc(i)) for i in dec(e)) + "])"
     if e[0] in ("list", "tuple"):
         return "(IroSeq [" + "; ".join(coq_num(x) for x in e[1]) + "])"
     return f"(IroScalar {coq_num(e)})"
@@ -93,10 +100,31 @@ def coq_zlist(e) -> str:
 
 GK = {"none": "GraftNone", "sgd": "GraftSGD", "adagrad": "GraftAdaGrad", "rmsprop": "GraftRMSprop", "adam": "GraftAdam", "unsupported": "GraftUnsupported"}
 PK = {"shampoo": "PCShampoo", "eigcorr": "PCEigenvalueCorrected", "unsupported": "PCUnsupported"}
-DK = {"none": "DistNone", "unsupported": "DistUnsupported"}
+DK = {"none": "DistNone", "unsupported": "DistUnsupported",
+      "ddp": "DistNone"}      # a real DDPShampooConfig on a 1-process gloo group: a supported type, same model value as None
+
+# Harness-only axis: HOW the same hyperparameter values reach the constructor and WHICH arguments the code does not
+# validate accompany them.  The model has no such field: it claims the outcome does not depend on any of this.
+VARIANTS = [
+    "std",
+    # unvalidated constructor arguments
+    "nesterov", "no_bias_corr", "coupled_wd", "no_merge", "pdtype_f64", "pdtype_bf16", "pdtype_f16",
+    # the parameters the optimizer is built for
+    "param_0d", "param_1d", "param_3d", "param_two", "param_f64", "param_bf16", "param_f16", "param_empty", "param_nograd", "param_1x1",
+    # config objects
+    "amort_alt",        # other amortized_computation_config (CoupledNewton for Shampoo, Eigh for eigenvalue-corrected)
+    "pc_singleton",     # the module-level DefaultShampooConfig / DefaultEigenvalueCorrectedShampooConfig object (when nt = 3, ignored = [])
+    "betas_list",       # betas given as a list
+    # call forms
+    "omit_defaults",    # every argument whose value equals the documented default is omitted (signature / dataclass defaults)
+    "dict_params",      # params = [{"params": [...]}]
+    "two_groups",       # two parameter groups without overrides: every group must carry the same resolved defaults
+    "twice",            # the same config objects used for two constructions in a row; the second outcome is reported
+]
 
 AXES = ["lr", "beta1", "beta2", "beta3", "epsilon", "momentum", "dampening", "weight_decay", "mpd", "freq", "start", "iro",
-        "gkind", "geps", "gb2", "pc_kind", "nt", "ignored", "dist"]
+        "gkind", "geps", "gb2", "pc_kind", "nt", "ignored", "dist", "variant"]
+MODEL_AXES = AXES[:-1]
 NUM_AXES = {"lr", "beta1", "beta2", "beta3", "epsilon", "momentum", "dampening", "weight_decay", "mpd", "freq", "start", "geps", "gb2", "nt"}
 
 # ---------------------------------------------------------------------------------------------
@@ -133,26 +161,29 @@ I63 = 2 ** 63
 
 
 def g_mpd():          # int >= 1 (and < 2^63 for torch.split)
-    return [("boundary", 1), ("just_out", 0), ("just_in", 2), ("far_out", -1), ("interior", 1024), ("boundary", I63 - 1), ("just_out", I63), ("far_out", 10 ** 30),
+    return [("boundary", 1), ("just_out", 0), ("just_in", 2), ("far_out", -1), ("interior", 1024), ("boundary", I63 - 1), ("just_out", I63), ("far_out", 10 ** 30), ("interior", 2 ** 31 - 1), ("interior", 2 ** 31),
             ("far_out", -10 ** 30), ("typemix", 1.0), ("typemix", 2.0), ("just_out", NA(1.0, 0.0)), ("typemix", 1.5), ("inf", INF), ("inf", -INF), ("nan", NAN)]
 
 
 def g_freq():         # >= 1
     return [("boundary", 1), ("just_out", 0), ("just_in", 2), ("far_out", -1), ("interior", 10), ("far_in", 10 ** 30), ("far_out", -10 ** 30), ("typemix", 1.0),
+            ("far_in", 2 ** 53 + 1),     # an int no float equals: the start/frequency comparison must be exact
             ("just_out", NA(1.0, 0.0)), ("just_in", NA(1.0, 2.0)), ("typemix", 10.5), ("inf", INF), ("inf", -INF), ("nan", NAN)]
 
 
 def g_start():        # -1 or >= freq   (baseline frequencies are 1 and 10)
     return [("boundary", -1), ("just_out", -2), ("just_out", 0), ("boundary", 1), ("just_in", 2), ("just_out", 9), ("boundary", 10), ("just_in", 11), ("interior", 20),
             ("typemix", -1.0), ("just_out", NA(-1.0, 0.0)), ("just_out", NA(-1.0, -2.0)), ("typemix", 0.5), ("just_out", NA(10.0, 0.0)), ("typemix", 10.0), ("far_in", 10 ** 30),
-            ("far_out", -10 ** 30), ("inf", INF), ("inf", -INF), ("nan", NAN)]
+            ("far_out", -10 ** 30), ("inf", INF), ("inf", -INF), ("nan", NAN),
+            ("just_out", 2.0 ** 53), ("boundary", 2 ** 53 + 1), ("just_in", 2.0 ** 53 + 2)]      # around frequency 2^53+1
 
 
 def g_iro():          # int >= 0 or sequence of ints >= 0
     return [("boundary", 0), ("just_in", 1), ("just_out", -1), ("interior", 2), ("typemix", 0.0), ("typemix", -0.0), ("just_in", NA(0.0, 1.0)), ("just_out", NA(0.0, -1.0)),
             ("far_in", 10 ** 30), ("far_out", -10 ** 30), ("inf", INF), ("inf", -INF), ("nan", NAN),
             ("boundary", []), ("boundary", [0]), ("boundary", [0, 0, 0]), ("interior", [1, 2]), ("interior", (2, 2, 3)), ("just_out", [2, -1]), ("just_out", [-1]),
-            ("nan", [NAN]), ("inf", [INF]), ("nan", [0, NAN, 1]), ("just_out", [NA(0.0, -1.0)]), ("inf", (1, -INF)), ("boundary", ())]
+            ("nan", [NAN]), ("inf", [INF]), ("nan", [0, NAN, 1]), ("just_out", [NA(0.0, -1.0)]), ("inf", (1, -INF)), ("boundary", ()),
+            ("interior", range(1, 4)), ("boundary", range(0, 2)), ("just_out", range(-1, 2))]
 
 
 def g_nt():           # int >= 0
@@ -168,13 +199,13 @@ GRID = {
     "lr": g_ge0(), "beta1": g_co01(), "beta2": g_oc01(), "beta3": g_beta3(), "epsilon": g_gt0(), "momentum": g_co01(), "dampening": g_co01(),
     "weight_decay": g_ge0(), "mpd": g_mpd(), "freq": g_freq(), "start": g_start(), "iro": g_iro(),
     "gkind": [("kind", k) for k in GK], "geps": g_gt0(), "gb2": g_oc01(), "pc_kind": [("kind", k) for k in PK], "nt": g_nt(), "ignored": g_ignored(),
-    "dist": [("kind", k) for k in DK],
+    "dist": [("kind", k) for k in DK], "variant": [("kind", v) for v in VARIANTS],
 }
 
 BASE_A = dict(lr=0.01, beta1=0.9, beta2=1.0, beta3=-1.0, epsilon=1e-12, momentum=0.0, dampening=0.0, weight_decay=0.0, mpd=1024, freq=1, start=-1, iro=0,
-              gkind="adagrad", geps=1e-10, gb2=0.99, pc_kind="shampoo", nt=3, ignored=[], dist="none")
+              gkind="adagrad", geps=1e-10, gb2=0.99, pc_kind="shampoo", nt=3, ignored=[], dist="none", variant="std")
 BASE_B = dict(lr=0.1, beta1=0.9, beta2=0.99, beta3=0.8, epsilon=1e-8, momentum=0.5, dampening=0.1, weight_decay=1e-3, mpd=2, freq=10, start=20, iro=(2, 2, 3),
-              gkind="adam", geps=1e-8, gb2=0.999, pc_kind="eigcorr", nt=0, ignored=[], dist="none")
+              gkind="adam", geps=1e-8, gb2=0.999, pc_kind="eigcorr", nt=0, ignored=[], dist="none", variant="std")
 BASES = {"A": BASE_A, "B": BASE_B}
 
 
@@ -315,7 +346,7 @@ def coq_raw(key: tuple) -> str:
             parts.append(PK[e[1]])
         elif a == "dist":
             parts.append(DK[e[1]])
-    return "(mk_raw " + " ".join(parts) + ")"
+    return "(mk_raw " + " ".join(parts) + ")"      # "variant" is not a field of the model
 
 
 def case_file(chunk) -> str:
@@ -337,7 +368,7 @@ def case_file(chunk) -> str:
                 parts.append(share(coq_iro(e)))
             elif a == "ignored":
                 parts.append(share(coq_zlist(e)))
-            else:
+            elif a != "variant":     # not a field of the model
                 parts.append({"gkind": GK, "pc_kind": PK, "dist": DK}[a][e[1]])
         obs = f"(ObsOK {share(coq_num(res[1]))} {share(coq_num(res[2]))})" if res[0] == "OK" else coq_obs(res)
         lab = f"(Some {res[3]})" if res[0] == "ValueError" and res[3] else "None"
@@ -372,13 +403,13 @@ def signature(key: tuple) -> str:
 
 def json_case(key: tuple) -> list:
     def j(e):
-        return [e[0], [j(x) for x in e[1]]] if e[0] in ("list", "tuple") else [e[0], e[1]]
+        return [e[0], [j(x) for x in e[1]]] if e[0] in ("list", "tuple", "range") else [e[0], e[1]]
     return [[a, j(e)] for a, e in zip(AXES, key)]
 
 
 def unjson_case(lst) -> tuple:
     def u(e):
-        return (e[0], tuple(u(x) for x in e[1])) if e[0] in ("list", "tuple") else (e[0], e[1])
+        return (e[0], tuple(u(x) for x in e[1])) if e[0] in ("list", "tuple", "range") else (e[0], e[1])
     d = {a: u(e) for a, e in lst}
     return tuple(d[a] for a in AXES)
 
